@@ -313,7 +313,7 @@ func (w *world) checkSettledTables() {
 			n, ok := o.state.Node(x.id)
 			if !ok {
 				sig := "caught-up-but-absent"
-				if o.expiredOnce[x.id] {
+				if o.expiredOnce[x.id] || w.gapPossible[x.id] {
 					sig += "-after-expiry-relearn"
 				}
 				w.run.Fail("C04.mirror", sig, "settled: n%d does not list member n%d", o.idx, x.idx)
@@ -327,7 +327,7 @@ func (w *world) checkSettledTables() {
 			if te == nil {
 				te = map[string]int{}
 			}
-			if !mapEq(te, truth) && !o.expiredOnce[x.id] {
+			if !mapEq(te, truth) && !o.expiredOnce[x.id] && !w.gapPossible[x.id] {
 				w.run.Fail("C20.rest", "settled-table-differs-from-registry", "settled: n%d lists n%d with %s, its registered upstreams are %s", o.idx, x.idx, fmtMap(te), fmtMap(truth))
 			}
 			_ = cluster.NodeStatusActive
@@ -513,6 +513,7 @@ func execConcurrent(run *simkit.Run) {
 	// membership churn while the workers run: nodes that join late are first
 	// "pending" in every syncer, which is where the syncer's own lock is taken
 	// from inside gossip's notification path
+	seedAddr := w.nodes[0].addr // read before the joiners append to w.nodes
 	for j := 0; j < c.Int("late_joiners"); j++ {
 		wg.Add(1)
 		go func(rng *simkit.Rand) {
@@ -521,7 +522,7 @@ func execConcurrent(run *simkit.Run) {
 			smu.Lock()
 			nd := w.addNode()
 			smu.Unlock()
-			nd.sg.JoinOnBoot([]string{w.nodes[0].addr})
+			nd.sg.JoinOnBoot([]string{seedAddr})
 			run.Probe("c20.late_joiner_during_activity")
 		}(run.Aux.Fork())
 	}
